@@ -10,7 +10,7 @@ for d in seeded/${1:-}*/; do
 import json,re,sys
 m=json.load(open('$d/meta.json'))
 print(' '.join(dict.fromkeys(re.findall(r'\bC\d\d\b', m['caught_by']))))")
-  git -C /repo apply $d/patch.diff 2>/dev/null || { echo "$name APPLY-FAILED"; continue; }
+  git -C /repo apply /verif/$d/patch.diff 2>/dev/null || { echo "$name APPLY-FAILED"; continue; }
   for c in $checks; do
     env $(python3 -c "
 import json
